@@ -10,6 +10,7 @@ import (
 	"sort"
 	"strings"
 
+	"github.com/meshplus/bitxhub/verif/harness"
 	"github.com/meshplus/bitxhub/verif/vlog"
 )
 
@@ -219,6 +220,12 @@ func root10Workload(args []string) int {
 	styles := []string{"perm", "txs", "redundant", "reads", "revert-storage", "restore-storage", "revert-acct-field", "restore-acct-field", "add-same-value", "balance-by-delta"}
 	for id := a.From; id < a.To; id++ {
 		rng := vlog.CaseRand(a.Seed, "root10", id)
+		if id%5 == 4 {
+			// every fifth case: real blocks (interchain requests, receipts, timeouts, restarts) through the real
+			// executor; the root monitor compares each committed block's journal and root with what changed
+			ixcCase("C10", w, a, id, rng, harness.Options{NoAudit: rng.Intn(2) == 0, RootMon: true})
+			continue
+		}
 		w.CaseStart(id, nil)
 		guard(w, "root10", func() {
 			// ---- base state: 2-3 blocks over 4 accounts
